@@ -202,8 +202,8 @@ fn c04_program(rng: &mut Rng, with_di: bool) -> (Vec<u8>, u8) {
             3 => vec![0xB0 + (r2 << 2) + r],                         // MUL
             4 => vec![0xC0 + (r2 << 2) + r],                         // DIV
             5 => vec![0x10 + r, 0x14 + r2],                          // PUSH r ; POP r2
-            6 => vec![0xF0 + r, 0x1F, 0x40 + rng.byte() % 0x40],     // ST (ram), r
-            7 => vec![0xFF, 0x40 + rng.byte() % 0x40, 0x10 + r],     // LD r, (ram)
+            6 => vec![0xF0 + r, 0x1F, 0x80 + rng.byte() % 0x10],     // ST (ram), r   (data area behind the code)
+            7 => vec![0xFF, 0x80 + rng.byte() % 0x10, 0x10 + r],     // LD r, (ram)
             8 => vec![0xF0 + r, 0x1F, 0xFE + rng.byte() % 2],        // ST (FE/FF), r
             9 => vec![0x44 + r],                                     // INC
             10 => vec![0x18, 0x1C],                                  // PUSHF ; POPF
@@ -263,7 +263,7 @@ fn arch_view(s: &Sess) -> String {
 /// Run until the machine sits at a boundary with PC == spin and no interrupt in flight; cap on edges.
 fn settle(s: &mut Sess, spin: u8) {
     use emulator_2a_lib::machine::RegisterNumber as RN;
-    for _ in 0..3000 {
+    for _ in 0..40000 {
         let st = s.m.verif_state();
         if s.m.is_instruction_done() && *s.m.registers().get(RN::R3) == spin && !st.pending_edge_interrupt {
             return;
@@ -307,12 +307,18 @@ pub fn run_c04(out: &mut Out, seed: u64, thorough: bool) {
         base.apply("new");
         base.apply(&load);
         let mut t_total = 0;
-        for _ in 0..4000 {
+        let mut arrived = false;
+        for _ in 0..20000 {
             if base.m.is_instruction_done() && *base.m.registers().get(RN::R3) == spin {
+                arrived = true;
                 break;
             }
             base.m.raw_mut().trigger_clock_edge();
             t_total += 1;
+        }
+        if !arrived {
+            out.count("program-skipped-too-long");
+            continue;
         }
         let reference = arch_view(&base);
         // every clock cycle as trigger point
@@ -348,6 +354,9 @@ pub fn run_c04(out: &mut Out, seed: u64, thorough: bool) {
             settle(&mut s, spin);
             let count = s.m.bus().memory()[CNT as usize];
             let transparent = arch_view(&s) == reference;
+            if !transparent && std::env::var("VERIF_DEBUG").is_ok() {
+                eprintln!("t={} k={} count={}\n  got {}\n  ref {}", t, k, count, arch_view(&s), reference);
+            }
             out.emit(
                 &format!("spec.c04 {} {}", micr as u8, ie_at_sample as u8),
                 &format!("count={} transparent={}", count, transparent as u8),
